@@ -72,7 +72,8 @@ WH(e, j, w, prev) ==
          IN IF OutOfScope(w, op)                         \* outside a documented precondition: the rest is not judged ...
             THEN \* ... except that a resampling request on a 2- or 3-sample series which the back end refuses (no documented minimum
                  \* length exists) must leave a well-formed object behind
-                 IF op.k \in {"interpolate_n", "interpolate_grid"} /\ Len(w.x) >= 2 /\ st.outcome # "ok" /\ ~Rejects(w, op)
+                 \* (and, generally: whatever request ends with an exception, the object it leaves behind is judged)
+                 IF Len(w.x) >= 2 /\ st.outcome # "ok" /\ ~Rejects(w, op)
                  THEN StateOnlyClauses(st, op) ELSE {}
             ELSE IF Rejects(w, op)
             THEN \* the missing-argument request is not one of the classes C20 enumerates: its exception class is drift only
